@@ -3,7 +3,7 @@ from . import core_check
 
 ASBUILT = ["del_marker_claims_reindented_line", "initial_is_line_numbers_only",
            "stale_entry_applied_by_line_number", "irebase_pairs_by_position", "pick_concluded_by_commit",
-           "index_only_lines_unattributed"]
+           "index_only_lines_unattributed", "replaced_line_takes_worktree_author"]
 
 # A file without a final newline makes the identity of its last line depend on its position (the same text is
 # "changed" for git when a line is appended after it), so that family is used only where every commit takes
